@@ -45,6 +45,7 @@ def run(ctx):
         M = ctx.model(cfg)
         gname = "future_group"
         grouplike.rule_insert(ctx, M, gname, "C11.INSERT")
+        grouplike.rule_insert_pinned(ctx, M, gname, "C11.INSERT")
         grouplike.rule_reserve(ctx, M, gname, "C11.RESERVE")
         grouplike.rule_remove(ctx, M, gname, "C11.REMOVE")
         grouplike.rule_view(ctx, M, gname, "C11.VIEW")
@@ -60,6 +61,24 @@ def run(ctx):
         ctx.floor("C11.DONE", cfg, 2)
         ctx.floor("C11.POLL", cfg, 4)
     return {}
+
+
+def premises(ctx, M, rule_id):
+    """What the concurrent-stream consumers rely on when they park their futures in a FutureGroup: insert_pinned
+    registers the future completely, the group polls every armed member, yields each output exactly once, reports
+    None only when empty - re-checked under the dependent property's own rule id."""
+    gname = "future_group"
+    with ctx.renamed({"C11.*": rule_id}):
+        grouplike.rule_insert_pinned(ctx, M, gname, "C11.INSERT")
+        grouplike.rule_ctor(ctx, M, gname, "C11.CTOR")
+        u = grouplike.group_unit(M, gname)
+        ctx.require(u is not None, "FutureGroup::poll_next_inner")
+        grouplike.rule_empty(ctx, M, u, "C11.EMPTY")
+        rule_done(ctx, M, u)
+        grouplike.rule_poll_shared(ctx, M, u, "C11")
+        grouplike.rule_view(ctx, M, gname, "C11.VIEW")
+    from . import c01
+    c01.live_premises(ctx, M, [u], rule_id)
 
 
 def rule_done(ctx, M, u):
